@@ -7,6 +7,8 @@
 import XotModel.Lemmas.SerOptSpell
 import XotModel.Lemmas.SerOptResp
 import XotModel.Lemmas.RoundTripEncode
+import XotModel.Lemmas.RoundTripSerialises
+import XotModel.Lemmas.RoundTripDeepEqual
 import XotModel.Lemmas.LexCanon
 import XotModel.Model.ParseString
 
@@ -122,5 +124,33 @@ theorem options_roundtrip_fragment {t : Tree} (hr : RepresentableFragment env t 
 theorem serTokensAtO_ok_default {t : Tree} {start : Path} {ts' : List Token}
     (h : serTokensAtO env pr t start = .ok ts') : ∃ ts, serTokensAt env false t start = .ok ts :=
   (spellAtO_tokens env pr t start ts' h).2
+
+/-- **When does it succeed?**  Exactly when the default serialisation does: iff every namespaced name has a
+    usable prefix in scope (`namesWritable`, C01_serialises). -/
+theorem options_serialises {t : Tree} (hr : RepresentableFragment env t = true) :
+    (∃ s, serializeString env pr t [] = .ok s) ↔ namesWritable env t [] = some true := by
+  obtain ⟨henv, _, hn, _⟩ := (representableFragment_iff env t).mp hr
+  have hren := serializeString_serTokensAtO env pr t [] (by rw [envOK_xmlPrefix env henv]; simp)
+    (nodeOK_declsNamed env t hn)
+  rw [← serTokensTop_ok_iff hr]
+  constructor
+  · rintro ⟨s, hs⟩
+    obtain ⟨ts', h1, _⟩ := serializeString_ok_representable env pr hr [] hs
+    obtain ⟨ts, h2⟩ := serTokensAtO_ok_default env pr h1
+    simp [serTokensTop, h2, exceptIsOk]
+  · intro h
+    cases h0 : serTokensTop env t with
+    | error e => simp [h0, exceptIsOk] at h
+    | ok ts0 =>
+      obtain ⟨ts, h1⟩ := serTokensAtO_of_default env pr t [] ts0 h0
+      refine ⟨renderTokens ts, ?_⟩
+      rw [show serializeString env pr t [] = serializeStringWith xmlEscapers env pr t [] from rfl, hren, h1]
+
+/-- A representable tree is `deep_equal` to itself (the crate's own comparison). -/
+theorem deepEqual_self_representable {t : Tree} (hr : RepresentableFragment env t = true) :
+    deepEqual t t = true := by
+  obtain ⟨_, _, hn, _⟩ := (representableFragment_iff env t).mp hr
+  have hv := valid_of_nodeOK t hn
+  exact (deepEqual_iff_canon t t hv hv).mpr rfl
 
 end XotModel
